@@ -482,6 +482,42 @@ def check_cleaned_token_lemma(bound):
     return n, None
 
 
+def check_cleaned_token_lemma_unicode(bound):
+    """the same lemma where Python's str.strip()/split() and XSD disagree about what whitespace is: every character that Python
+    treats as whitespace and XSD does not (lex.EXOTIC), one at a time, mixed with the four XSD whitespace characters"""
+    import itertools
+    import musicxml.util.core as core
+    real = getattr(core, '_dv_real_gct', None) or core.get_cleaned_token
+    n = 0
+    for lo, hi in lex.EXOTIC:
+        for cp in range(lo, hi + 1):
+            if cp < 0x20:
+                continue       # not an XML character at all: no document can contain it
+            alpha = ['a', ' ', '\t', '\n', '\r', chr(cp)]
+            for k in range(1, bound + 1):
+                for tup in itertools.product(alpha, repeat=k):
+                    if chr(cp) not in tup:
+                        continue
+                    s = ''.join(tup)
+                    n += 1
+                    if real(s) != lex.ws_collapse(s):
+                        return n, s
+    return n, None
+
+
+def lemma_replay_source(o):
+    return f'''import musicxml.util.core as core
+s = {o['witness']}
+t = s
+for c in '\\t\\n\\r':
+    t = t.replace(c, ' ')
+want = ' '.join(p for p in t.split(' ') if p != '')     # XSD whiteSpace=collapse: #x9 #xA #xD -> #x20, runs contracted, ends trimmed
+got = core.get_cleaned_token(s)
+print('input', ascii(s), 'get_cleaned_token', ascii(got), 'XSD collapse', ascii(want))
+sys.exit(0 if got == want else 1)
+'''
+
+
 # ---------------------------------------------------------------------------------------------------------------------
 
 def builtin_lemmas(seed, n):
@@ -625,7 +661,7 @@ def run(tier='quick', seed=0):
         'assumed contract of float.__repr__: decimal numeral iff x == 0 or 1e-4 <= |x| < 1e16 (else exponent form)',
         'assumed contract of str(int): canonical decimal numeral; str(True)/str(False) = "True"/"False"',
         're.compile(p).fullmatch(s) is modelled by translating p (parsed with CPython\'s own re._parser) to a z3 regex',
-        'get_cleaned_token(v) = XSD collapse(v) for strings without non-XSD Unicode whitespace: BOUNDED lemma (exhaustive over {a,b,SP,TAB,LF,CR}^<=N), not proved; strings with exotic whitespace are outside the proved domain',
+        'get_cleaned_token(v) = XSD collapse(v) for strings without non-XSD Unicode whitespace: BOUNDED lemma (exhaustive over {a,b,SP,TAB,LF,CR}^<=N), not proved; a second BOUNDED lemma enumerates strings over {a,SP,TAB,LF,CR,x} for every XML character x that Python strips and XSD does not; the symbolic value domain of the VCs still excludes those characters',
         'collapse axioms used in VCs (result is collapsed; identity on collapsed strings; idempotent; literal instances) are true lemmas of XSD collapse, not machine-checked',
         'the float-repr, str(int) and regex-translation contracts are additionally SAMPLED at run time (C05/lemma/*, bounded, seed = VERIF_SEED)',
     ]
@@ -665,6 +701,10 @@ def run(tier='quick', seed=0):
     all_obs.append(dict(oid='C05/lemma/get_cleaned_token==collapse', status='discharged' if cex is None else 'violated', level='bounded',
                         detail=f'exhaustive over {nb} strings' if cex is None else f'differs on {cex!r}', witness=repr(cex), kind='lemma', paths=nb,
                         backend='native-exhaustive'))
+    nb, cex = check_cleaned_token_lemma_unicode(4 if tier == 'quick' else 6)
+    all_obs.append(dict(oid='C05/lemma/get_cleaned_token==collapse/unicode-whitespace', status='discharged' if cex is None else 'violated', level='bounded',
+                        detail=f'exhaustive over {nb} strings' if cex is None else f'differs on {cex!r}', witness=repr(cex), kind='lemma', paths=nb,
+                        backend='native-exhaustive'))
     # bounded lemmas for the assumed contracts of the built-ins
     for oid, ok, n, det in builtin_lemmas(seed, 2000 if tier == 'quick' else 20000):
         all_obs.append(dict(oid=oid, status='discharged' if ok else 'violated', level='bounded', detail=det, witness=None, kind='lemma', paths=n, backend='native-sample'))
@@ -681,7 +721,8 @@ def run(tier='quick', seed=0):
         ob = report.Ob(o['oid'], o['status'], level=level, backend=o.get('backend', 'z3'), detail=o.get('detail'), seconds=o.get('seconds', 0.0), paths=o.get('paths', 0))
         if o['status'] == 'violated':
             k = R.match_known(o['oid'])
-            src = ct_replay_source(o) if o.get('kind') == 'ct-no-text' else (replay_source(o) if o.get('kind') in ('sound', 'complete', 'exc') else None)
+            src = ct_replay_source(o) if o.get('kind') == 'ct-no-text' else (replay_source(o) if o.get('kind') in ('sound', 'complete', 'exc') else
+                                                                             (lemma_replay_source(o) if o.get('kind') == 'lemma' and o.get('witness') not in (None, 'None') else None))
             if src is not None:
                 path = report.write_replay('C05', o['oid'], src, header=str(o.get('detail')))
                 rc, out = report.run_replay(path)
